@@ -294,7 +294,10 @@ def dump_options(o):
     for name, confname in o.names_list:
         if confname and confname.startswith('supervisord.'):
             out.append(EFFECTIVE[name](getattr(o, name)))
-    assert o.process_group_configs is s.process_group_configs
+    if o.process_group_configs is not s.process_group_configs:
+        raise TypeError('options.process_group_configs is not the list of groups the file just read configures '
+                        '(%r instead of %r)' % ([g.name for g in o.process_group_configs],
+                                                [g.name for g in s.process_group_configs]))
     for g in o.process_group_configs:
         out += [('T', 'group'), _strict('S', g.name), _strict('Z', g.priority), ('T', type(g).__name__)]
         if type(g) is so.EventListenerPoolConfig:
